@@ -266,5 +266,7 @@ def g2_onwards(ctx, rep):
             bad = [c for c in chain if c in ('filter', 'skip', 'take', 'rev', 'step_by', 'filter_map', 'sorted')]
             rep.check(not bad, 'G3', f'{qual}:loop-unfiltered', 'in order, unfiltered', f'{qual} iterates the sorted list through {bad}', {'file': d['file'], 'line': l['line']})
         for l in d['loops']:
-            if l.get('ctl') and any(fr.get('k') == 'for' and 'items' in vt.show(fr.get('over')) for fr in l.get('guard', [])):
+            # `continue` / `break` inside the loop that *writes* the items skips or cuts off items; a pre-scan over the same list
+            # (collecting names before anything is written) may use them freely
+            if l.get('ctl') and wl and inside(l, wl[0]):
                 rep.fail('G3', f'{qual}:loop-ctl', f"{qual} has `{l['ctl']}` in the item loop", {'file': d['file'], 'line': l['line']})
